@@ -1,4 +1,5 @@
 import VsbModel.Lemmas.SyncConv
+import VsbModel.Lemmas.ListProto
 
 /-!
 # C06 — cloud sync converges and never deletes what retention protects
@@ -316,4 +317,54 @@ example : wipedGuard [(3, [1])] [(1, [1]), (2, [1])] = true := by decide
 /-- … and the cloud as that run leaves it: the second run does nothing. -/
 example : (syncBackups [(1, [1, 2]), (2, []), (3, [1])] [(1, [1, 2]), (3, [1])] true 2 (fun _ => false)).1 = [] := by decide
 
+
+end Vsb.Sync
+
+/-! ## The listings the sync decisions are based on -/
+namespace Vsb.ListProto
+open Vsb.Proto
+variable {α : Type}
+
+/-- **listing_never_partial.**  Whatever the provider's page size and whatever the server answers, a listing
+that is reported as successful contains exactly the entries of the directory, in order: a lost page turns the
+listing into an error, never into a shorter listing (on which uploads and deletions would be decided). -/
+theorem listing_never_partial (pageSize : Nat) (script : Nat → Resp) (l r : List α) (n : Nat) :
+    (dropboxList pageSize script (some l) = .ok r n → r = l) ∧
+    (yandexList pageSize script (some l) = .ok r n → r = l) ∧
+    (∀ k0, googleChildren pageSize script k0 l = .ok r n → r = l) := by
+  refine ⟨?_, ?_, ?_⟩
+  · intro h; simpa using pagedLoop_ok_exact pageSize _ script l _ 0 1 0 [] r n h
+  · intro h; simpa using pagedLoop_ok_exact pageSize _ script l _ 0 1 0 [] r n h
+  · intro k0 h; simpa using pagedLoop_ok_exact pageSize _ script l _ 0 1 k0 [] r n h
+
+/-- Every request of a successful listing got a usable reply. -/
+theorem listing_fault_is_error (pageSize : Nat) (script : Nat → Resp) (l r : List α) (n : Nat)
+    (h : dropboxList pageSize script (some l) = .ok r n ∨ yandexList pageSize script (some l) = .ok r n) :
+    ∀ j, j < n → (script j).good = true := by
+  intro j hj
+  rcases h with h | h
+  · exact pagedLoop_fault pageSize _ script l _ 0 1 0 [] r n h j (Nat.zero_le _) hj
+  · exact pagedLoop_fault pageSize _ script l _ 0 1 0 [] r n h j (Nat.zero_le _) hj
+
+/-- **listing_complete.**  With a healthy server and any positive page size the listing succeeds (Dropbox and
+Google give up after 1000 pages; Yandex has no page limit). -/
+theorem listing_complete (pageSize : Nat) (hs : 0 < pageSize) (script : Nat → Resp) (hgood : ∀ k, (script k).good = true)
+    (l : List α) :
+    (l.length / pageSize < 1000 → ∃ n, dropboxList pageSize script (some l) = .ok l n) ∧
+    (∃ n, yandexList pageSize script (some l) = .ok l n) := by
+  refine ⟨?_, ?_⟩
+  · intro hp
+    obtain ⟨n, hn⟩ := pagedLoop_complete pageSize hs (some 1000) script l hgood (l.length + 1) 0 1 0 [] (by omega)
+      (by intro lim h; cases h; simp only [Nat.sub_zero]; omega)
+    exact ⟨n, by simpa [dropboxList] using hn⟩
+  · obtain ⟨n, hn⟩ := pagedLoop_complete pageSize hs none script l hgood (l.length + 1) 0 1 0 [] (by omega)
+      (by intro lim h; cases h)
+    exact ⟨n, by simpa [yandexList] using hn⟩
+
+example : dropboxList 2 (fun _ => .ok) (some [1, 2, 3, 4, 5]) = .ok [1, 2, 3, 4, 5] 3 := by decide
+example : yandexList 2 (fun k => if k = 1 then .reject else .ok) (some [1, 2, 3, 4, 5]) = .err 2 := by decide
+
+end Vsb.ListProto
+
+namespace Vsb.Sync
 end Vsb.Sync
